@@ -47,14 +47,12 @@ def findStrtabL (file : List Byte) (stroffset : Nat) : List ElfSpec.Shdr → Nat
     else findStrtabL file stroffset hs
 
 /-- list form of the second loop -/
-def sectionLoopL (cap : Nat) (file : List Byte) (big is32 : Bool) (stroffset strtabOff : Nat) : List ElfSpec.Shdr → St → St
+def sectionLoopL (file : List Byte) (big is32 : Bool) (stroffset strtabOff : Nat) : List ElfSpec.Shdr → St → St
   | [], st => st
   | sh :: hs, st =>
     let name := strLoop 255 (file.drop (stroffset + sh.name))
     let isText := sh.flags / 4 % 2 = 1
-    if (isText ∨ name.take 5 = [46, 100, 97, 116, 97] ∨ name = [46, 118, 101, 99, 116, 111, 114, 115] ∨ sh.type = 2) ∧
-        sh.size > cap then { st with tooBig := true }
-    else if isText ∨ name.take 5 = [46, 100, 97, 116, 97] ∨ name = [46, 118, 101, 99, 116, 111, 114, 115] then
+    if isText ∨ name.take 5 = [46, 100, 97, 116, 97] ∨ name = [46, 118, 101, 99, 116, 111, 114, 115] then
       let u64 := 18446744073709551616
       let (start, stop) :=
         if isText then
@@ -64,12 +62,12 @@ def sectionLoopL (cap : Nat) (file : List Byte) (big is32 : Bool) (stroffset str
            else if st.stop < (sh.addr + sh.size) % u64 then (sh.addr + sh.size + u64 - 1) % u64 % 4294967296 else st.stop)
         else (st.start, st.stop)
       let w := writesAt sh.addr 0 (loadBytes (file.drop sh.offset) sh.size)
-      sectionLoopL cap file big is32 stroffset strtabOff hs { st with start := start, stop := stop, writes := st.writes ++ w }
+      sectionLoopL file big is32 stroffset strtabOff hs { st with start := start, stop := stop, writes := st.writes ++ w }
     else if sh.type = 2 then
       let symSize := if is32 then 16 else 24
       let (ys, _) := symLoop file big is32 strtabOff ((sh.size + symSize - 1) / symSize) (file.drop sh.offset) []
-      sectionLoopL cap file big is32 stroffset strtabOff hs { st with syms := st.syms ++ ys }
-    else sectionLoopL cap file big is32 stroffset strtabOff hs st
+      sectionLoopL file big is32 stroffset strtabOff hs { st with syms := st.syms ++ ys }
+    else sectionLoopL file big is32 stroffset strtabOff hs st
 
 /-- what the loops need of the file: header `n` is read as `secs[n]`, and every offset used is a valid `long` -/
 structure TableOk (file : List Byte) (big is32 : Bool) (shoff : Nat) (sz : Nat) (stroffset : Nat)
@@ -106,11 +104,11 @@ theorem findStrtab_eq (file : List Byte) (big is32 : Bool) (shoff sz stroffset :
     · have := ih (k + 1) hdrop rest2
       simpa using this
 
-theorem sectionLoop_eq (cap : Nat) (file : List Byte) (big is32 : Bool) (shoff sz stroffset strtabOff : Nat)
+theorem sectionLoop_eq (file : List Byte) (big is32 : Bool) (shoff sz stroffset strtabOff : Nat)
     (secs : List ElfSpec.Shdr) (ok : TableOk file big is32 shoff sz stroffset secs) :
     ∀ (l : List ElfSpec.Shdr) (k : Nat), secs.drop k = l → ∀ rest st,
-      sectionLoop cap file big is32 shoff sz stroffset strtabOff l.length k rest st =
-        sectionLoopL cap file big is32 stroffset strtabOff l st := by
+      sectionLoop file big is32 shoff sz stroffset strtabOff l.length k rest st =
+        sectionLoopL file big is32 stroffset strtabOff l st := by
   intro l
   induction l with
   | nil => intro k _ rest st; rfl
@@ -132,12 +130,10 @@ theorem sectionLoop_eq (cap : Nat) (file : List Byte) (big is32 : Bool) (shoff s
     simp only [six, getString, seek_ok _ _ _ hs1, seek_ok _ _ _ hs2]
     have e : ((k : Int) + 1) = ((k + 1 : Nat) : Int) := by simp
     split
-    · rfl
+    · rw [e, ih (k + 1) hdrop]; try rfl
     · split
       · rw [e, ih (k + 1) hdrop]; try rfl
-      · split
-        · rw [e, ih (k + 1) hdrop]; try rfl
-        · rw [e, ih (k + 1) hdrop]
+      · rw [e, ih (k + 1) hdrop]
 
 theorem readSym_render (big is32 : Bool) (name value size info other shndx : Nat) (r : List Byte) :
     readSym big is32 (renderSym big is32 name value size info other shndx ++ r) = ((u32 name, u32 value, info % 256), r) := by
@@ -173,7 +169,10 @@ theorem symLoop_entries (file : List Byte) (big is32 : Bool) (strtabOff : Nat) (
     have hname : strLoop 255 (file.drop (strtabOff + off)) = n := by
       rw [hstr]; simp only [symNames, List.append_assoc, List.cons_append]
       exact strLoop_cstr n _ 255 h0 (by omega)
-    simp only [symEntries, List.length_cons, List.append_assoc, symLoop, readSym_render, hu, hua, getString]
+    have hlen : ¬ (renderSym big is32 off a 0 18 0 1 ++ (symEntries big is32 (off + n.length + 1) syms ++ t)).length <
+        (if is32 then 16 else 24) := by
+      rw [List.length_append, renderSym_length]; omega
+    simp only [symEntries, List.length_cons, List.append_assoc, symLoop, hlen, if_false, readSym_render, hu, hua, getString]
     rw [seek_ok _ _ _ (by omega), hname]
     have h18 : (18 % 256 ≠ 0 ∧ 18 % 256 ≠ 3 ∧ 18 % 256 ≠ 4) := by decide
     rw [if_pos h18]
